@@ -485,7 +485,19 @@ class Gen:
             i = self.m()
             head += " ->«A%d|ret;%s» %s«|»«/A%d» do" % (i, "g" if ground(ret) else "n", ty_str(ret), i)
         self.scopes.append(list(params))
+        extra = []
+        for p in params:
+            # call the function-typed fields of blob-typed parameters (needs the parameter's annotation: C08)
+            if isinstance(p.ty, tuple) and p.ty[0] == "blob" and self.r.random() < 0.8:
+                for f, ft in self.blobs[p.ty[1]]:
+                    if is_fn(ft) and (not ctx.pure or ft[3]):
+                        self.count("method-call-on-param")
+                        extra.append("%s    %s.%s(%s)" % (ind, p.name, f, ", ".join(self.expr(a, ctx, 2, "arg") for a in ft[1])))
         body = self.block(ctx, ind + "    ", (0 if ctx.depth >= 3 else self.r.randint(0, 1)) if small else self.r.randint(1, 3), ret=ret, rec=rec)
+        if rec is not None:
+            body = body[:3] + extra + body[3:]
+        else:
+            body = extra + body
         self.scopes.pop()
         return head + "\n" + "\n".join(body) + "\n" + ind + "end"
 
